@@ -68,6 +68,14 @@ where
 {
 	let mut ret_slate = slate.clone();
 	check_ttl(w, &ret_slate)?;
+	// In the first round no party can have signed yet (a partial signature needs the recipient's
+	// nonce). Refuse such a slate here: otherwise it is only rejected when the signatures are
+	// verified, after the recipient output and log entry have already been stored.
+	if ret_slate.participant_data.iter().any(|p| p.is_complete()) {
+		return Err(Error::Signature(
+			"Slate to receive must not carry partial signatures".into(),
+		));
+	}
 	let parent_key_id = match dest_acct_name {
 		Some(d) => {
 			let pm = w.get_acct_path(d.to_owned())?;
